@@ -215,6 +215,8 @@ func (ctx *Context) Depth() int {
 
 func (ctx *Context) SetConfig(cfg *RollConfig) {
 	ctx.Config = *cfg
+	// 配置是纯设置: 来源 VM 已编译好的默认面数函数(缓存)不随配置带过来，否则两个 VM 会共享同一个函数对象
+	ctx.Config.defaultDiceSideExprCacheFunc = nil
 }
 
 func (ctx *Context) Init() {
